@@ -73,24 +73,24 @@ func (o outcome) failed() bool {
 }
 
 type orch struct {
-	c       *core.Ctx
-	se      SeedEnv
-	singles *caseTable
-	dir     string
-	seq     int64
-	spawns  int64
-	deaths  int64
-	stopped int32
-	par     int
-	known   map[string]bool
-	strays  int64
-	maxFrac float64
-	nearLimit []string
-	unconfInfo []string
-	maxFracCase string
-	maxMicros int64
+	c             *core.Ctx
+	se            SeedEnv
+	singles       *caseTable
+	dir           string
+	seq           int64
+	spawns        int64
+	deaths        int64
+	stopped       int32
+	par           int
+	known         map[string]bool
+	strays        int64
+	maxFrac       float64
+	nearLimit     []string
+	unconfInfo    []string
+	maxFracCase   string
+	maxMicros     int64
 	maxMicrosCase string
-	strayInfo []string
+	strayInfo     []string
 }
 
 func (o *orch) caseOf(it item) Case {
@@ -589,6 +589,19 @@ func workBase() string {
 	return ""
 }
 
+// sweepStale removes work directories left behind by runs that were killed (older than 2 hours).
+func sweepStale(base string) {
+	if base == "" {
+		base = os.TempDir()
+	}
+	ds, _ := filepath.Glob(filepath.Join(base, "c09-*"))
+	for _, d := range ds {
+		if st, err := os.Stat(d); err == nil && st.IsDir() && time.Since(st.ModTime()) > 2*time.Hour {
+			os.RemoveAll(d)
+		}
+	}
+}
+
 func freshSeedEnv() SeedEnv {
 	env := brokerx.MustNew(brokerx.Options{Storage: "inmemory"})
 	se := newSeedEnv(env)
@@ -703,6 +716,7 @@ func run(c *core.Ctx) {
 	if err := selfCheck(se); err != nil {
 		core.HarnessFailure("self-check of the annotated encoders failed: %v", err)
 	}
+	sweepStale(workBase())
 	dir, err := os.MkdirTemp(workBase(), "c09-*")
 	if err != nil {
 		core.HarnessFailure("%v", err)
